@@ -118,7 +118,7 @@ Section OpsLocal.
       assert (R : 0 <= h_len bl < h_cap bl) by lia.
       run (slot_write_at cfg s b bl off (h_len bl) e Hcfg (proj2 Hv) Hb Hco R).
       fold bl1. fold s1.
-      rewrite (set_len_at cfg s1 v b bl1 (h_len bl + 1) Hcfg Hv1 Hb1). reflexivity.
+      rewrite (add_len_at cfg s1 v b bl1 1 Hcfg Hv1 Hb1). reflexivity.
     - apply vec_at_upd with (bl := bl1). assumption.
     - eapply frame_trans; apply frame_upd.
     - apply block_ok_with_len with (bl := bl1); [assumption|simpl; lia].
